@@ -30,11 +30,63 @@ pub mod repr_f32 {
 use super::*;
 broadcast use {crate::bigstub::ax_ubig_of, crate::bigstub::ax_ibig_of, crate::bigstub::ax_ubig_nonneg};
 //@@ FN rational/numorder2/repr_cmp_prim_float.rs variant=f32 msubst=t:f32
+// glue (verified one-liner): the trait impl that the RBig / Relaxed forwarding impls call by method syntax
+impl NumOrd<f32> for Repr {
+    open spec fn npc_req(&self, other: &f32) -> bool { self.denominator.v() >= 1 }
+    open spec fn npc_spec(&self, other: &f32) -> Option<Ordering> {
+        cmp_ratio_prim(self.numerator.v(), self.denominator.v(),
+            f32_nan(*other), f32_inf(*other), f32_neg(*other), f32_man(*other), f32_exp(*other))
+    }
+    fn num_partial_cmp(&self, other: &f32) -> (r: Option<Ordering>) { repr_cmp_prim_float(self, other) }
+    // default method of num-order (TRUSTED): `self.num_partial_cmp(other).unwrap()`
+    #[verifier::external_body]
+    fn num_cmp(&self, other: &f32) -> (r: Ordering) { unimplemented!() }
+}
+pub mod rbig {
+use super::*;
+//@@ FN rational/numorder2/fwd_r_t_cmp.rs variant=RBig msubst=R:RBig,T:f32
+//@@ FN rational/numorder2/fwd_r_t_pcmp.rs variant=RBig msubst=R:RBig,T:f32
+//@@ FN rational/numorder2/fwd_t_r_cmp.rs variant=f32 msubst=R:RBig,T:f32
+//@@ FN rational/numorder2/fwd_t_r_pcmp.rs variant=f32 msubst=R:RBig,T:f32
+}
+pub mod relaxed {
+use super::*;
+//@@ FN rational/numorder2/fwd_r_t_cmp.rs variant=Relaxed msubst=R:Relaxed,T:f32
+//@@ FN rational/numorder2/fwd_r_t_pcmp.rs variant=Relaxed msubst=R:Relaxed,T:f32
+//@@ FN rational/numorder2/fwd_t_r_cmp.rs variant=f32 msubst=R:Relaxed,T:f32
+//@@ FN rational/numorder2/fwd_t_r_pcmp.rs variant=f32 msubst=R:Relaxed,T:f32
+}
 }
 pub mod repr_f64 {
 use super::*;
 broadcast use {crate::bigstub::ax_ubig_of, crate::bigstub::ax_ibig_of, crate::bigstub::ax_ubig_nonneg};
 //@@ FN rational/numorder2/repr_cmp_prim_float.rs variant=f64 msubst=t:f64
+// glue (verified one-liner): the trait impl that the RBig / Relaxed forwarding impls call by method syntax
+impl NumOrd<f64> for Repr {
+    open spec fn npc_req(&self, other: &f64) -> bool { self.denominator.v() >= 1 }
+    open spec fn npc_spec(&self, other: &f64) -> Option<Ordering> {
+        cmp_ratio_prim(self.numerator.v(), self.denominator.v(),
+            f64_nan(*other), f64_inf(*other), f64_neg(*other), f64_man(*other), f64_exp(*other))
+    }
+    fn num_partial_cmp(&self, other: &f64) -> (r: Option<Ordering>) { repr_cmp_prim_float(self, other) }
+    // default method of num-order (TRUSTED): `self.num_partial_cmp(other).unwrap()`
+    #[verifier::external_body]
+    fn num_cmp(&self, other: &f64) -> (r: Ordering) { unimplemented!() }
+}
+pub mod rbig {
+use super::*;
+//@@ FN rational/numorder2/fwd_r_t_cmp.rs variant=RBig msubst=R:RBig,T:f64
+//@@ FN rational/numorder2/fwd_r_t_pcmp.rs variant=RBig msubst=R:RBig,T:f64
+//@@ FN rational/numorder2/fwd_t_r_cmp.rs variant=f64 msubst=R:RBig,T:f64
+//@@ FN rational/numorder2/fwd_t_r_pcmp.rs variant=f64 msubst=R:RBig,T:f64
+}
+pub mod relaxed {
+use super::*;
+//@@ FN rational/numorder2/fwd_r_t_cmp.rs variant=Relaxed msubst=R:Relaxed,T:f64
+//@@ FN rational/numorder2/fwd_r_t_pcmp.rs variant=Relaxed msubst=R:Relaxed,T:f64
+//@@ FN rational/numorder2/fwd_t_r_cmp.rs variant=f64 msubst=R:Relaxed,T:f64
+//@@ FN rational/numorder2/fwd_t_r_pcmp.rs variant=f64 msubst=R:Relaxed,T:f64
+}
 }
 } // verus!
 fn main() {}
